@@ -38,7 +38,10 @@ var dirPool = []string{"", "", "a", "a/b", "c", "a/b/d", "e"}
 var namePool = []string{"f0", "f1", "f2", "f3", "f4", "f5", "f6", "f7", "x", "x.dat", "lib.so", "data.bin", "F0", "X", "Data.bin",
 	// a name close to the 255-byte limit of a path component, and names that look like the temporary
 	// names an implementation might derive from other names
-	longName, "f1.butler-rename-1", ".butler-rename-1", ".butler-rename-2"}
+	longName, "f1.butler-rename-1", ".butler-rename-1", ".butler-rename-2",
+	// names that sort between a directory of the pool and its content when compared as strings
+	// ("a.pak" < "a/f0"), but after it in walk order
+	"a.pak", "a b", "c-1", "e.d"}
 
 var longName = "L" + strings.Repeat("o", 243) + "g"
 
@@ -193,6 +196,22 @@ func GenTree(rt *rapid.T, o GenOpts, poolSeed uint64) Tree {
 }
 
 func genLinkDest(rt *rapid.T, t Tree) string {
+	d := genCleanLinkDest(rt, t)
+	// a destination is an arbitrary string: it need not be in the form a path cleaner produces
+	switch rapid.IntRange(0, 9).Draw(rt, "ldestspelling") {
+	case 0:
+		return "./" + d
+	case 1:
+		return d + "/"
+	case 2:
+		return strings.Replace(d, "/", "//", 1) + "/."
+	case 3:
+		return "x/../" + d
+	}
+	return d
+}
+
+func genCleanLinkDest(rt *rapid.T, t Tree) string {
 	c := rapid.IntRange(0, 3).Draw(rt, "ldestkind")
 	files := t.Files()
 	switch {
@@ -562,6 +581,10 @@ func GenPair(rt *rapid.T, o GenOpts) *Pair {
 				p.Ops = append(p.Ops, "remove link "+q)
 			case 1:
 				nw[q] = &Entry{Kind: KLink, Dest: genLinkDest(rt, nw)}
+				if rapid.IntRange(0, 2).Draw(rt, "respell") == 0 {
+					// same place, other spelling: still another destination string
+					nw[q].Dest = rapid.SampledFrom([]string{"./" + e.Dest, e.Dest + "/", "x/../" + e.Dest, path.Clean(e.Dest)}).Draw(rt, "respelling")
+				}
 				p.Ops = append(p.Ops, "retarget link "+q)
 			case 2:
 				if o.KindChange {
